@@ -111,6 +111,7 @@ type Pkg struct {
 	NoInj   bool     `json:"noinj,omitempty"` // deliberately without injectors (a dependency of packages that have some)
 	NFiles  int      `json:"nfiles"`         // number of injector files
 	CopyFns int      `json:"copyfns,omitempty"`
+	Cgo     bool     `json:"cgo,omitempty"`    // the first injector file imports "C": the loader parses cgo's translated copy in the build cache
 	Facade  bool     `json:"facade,omitempty"` // declares nothing but alias variables of other packages' sets: no wire import, no injectors
 }
 
